@@ -32,12 +32,11 @@ LEVEL_TEXT = (
     "(applyDiff (diff a b) a ≈ b); reduce_exact (reduce (diff a b) path = diff (a at path) (b at path), as lists, every path) with "
     "corollaries reduce_apply / reduce_empty_iff; essence, every storage configuration and body: status_invisible, "
     "system_metadata_invisible / finalizers_invisible, marked_annotation_invisible (own and other operators' annotations under a "
-    "marked prefix: set/change/remove), payload_exact + essence_injective_on_payload + payload_change_detected (with WF of the two "
-    "essences as hypothesis), ordinary_annotation_kept / marked_annotation_dropped (filter level). Proved negations with witnesses: "
+    "marked prefix: set/change/remove) and first_annotation_write_invisible (annotations mapping absent -> present), payload_exact + essence_injective_on_payload + essence_wf + payload_change_detected, ordinary_annotation_kept / marked_annotation_dropped (filter level). Proved negations with witnesses: "
     "bool_int_witness (F7), extra_status_witness (F8), multi_drs_witness (F9), marker_first_write_witness, null_absent_witness. "
     "NOT proved in Lean (tie + oracle only, listed at the end of Props/C04.lean): own keys under an unmarked custom prefix "
-    "(exact-key / progress.clear route) and the absent->present transition of metadata.annotations at essence level; label and "
-    "annotation changes reaching the diff at essence level; WF of the essence. "
+    "(exact-key / progress.clear route) at essence level; label and "
+    "annotation changes reaching the diff at essence level. "
     "Tie: differential run of the real diffs.diff/reduce, DiffBaseStorage.build (+Annotations/Status/Multi), ProgressStorage.clear "
     "(Annotations/Status/NoWrite/Multi/Smart), built with the real constructors, against the model; the Lean applier and ≈ are tied "
     "to the oracle's Python applier and equivalence as well.")
@@ -61,8 +60,8 @@ THEOREM_NAMES = [
     "diff_self_empty", "diff_empty_iff", "apply_diff", "reduce_exact", "reduce_apply", "reduce_empty_iff",
     "bool_int_witness", "null_absent_witness",
     "status_invisible", "status_removal_invisible", "system_metadata_invisible", "finalizers_invisible",
-    "marked_annotation_invisible", "marker_first_write_witness",
-    "payload_exact", "essence_injective_on_payload", "payload_change_detected",
+    "marked_annotation_invisible", "first_annotation_write_invisible", "marker_first_write_witness",
+    "payload_exact", "essence_injective_on_payload", "essence_wf", "payload_change_detected",
     "ordinary_annotation_kept", "marked_annotation_dropped",
     "extra_status_witness", "multi_drs_witness",
 ]
